@@ -166,6 +166,65 @@ def cbin_check(case):
     return Res(v, o=(np.sign(delta),), nt=delta != 0, tr=6)
 
 
+# ------------------------------------------------------------------ other sample formats: bytes per sample is part of the frame size
+def dtype_cases(tier, seed):
+    out = []
+    for dt in ("float32", "int16", "int32"):
+        isz = np.dtype(dt).itemsize
+        for nc in (2, 5):
+            frame = nc * isz
+            for nf in (1, 2, 7, 30):
+                for extra in range(frame):
+                    for mm in (0, 1, 2):
+                        for rd in (0, 1):
+                            out.append((dt, nc, nf * frame + extra, mm, rd))
+    return out
+
+
+def dtype_check(case):
+    dt, nc, nbytes, mm, rd = case
+    mode = META_MODES[mm]
+    dtype = np.dtype(dt)
+    frame = nc * dtype.itemsize
+    nf = nbytes // frame
+    k = nc - 1
+    d = synth.proc_scratch()
+    stem = "fmt_g0_t0.imec0.ap"
+    vals = (np.arange(nf * nc, dtype=np.int64) * 37 % 2001 - 1000).astype(dtype)
+    raw = vals.tobytes() + bytes((np.arange(nbytes - nf * frame) * 13 % 251).astype(np.uint8))
+    fbin = os.path.join(d, stem + ".bin")
+    with open(fbin, "wb") as f:
+        f.write(raw)
+    fs = FS[1]
+    items = synth.meta_items("NP2.1", _sites(k), _claimed(mode, nf), fs=fs)
+    with open(os.path.join(d, stem + ".meta"), "w") as f:
+        f.write(synth.meta_text(items))
+    cls = spikeglx.OnlineReader if rd else spikeglx.Reader
+    tag = "%s:%s:%s" % (dt, "online" if rd else "offline", "partial-frame" if nbytes % frame else "whole-frames")
+    v = []
+    try:
+        sr = cls(fbin, sort=False, dtype=dt)
+    except Exception as e:
+        return Res([("open:%s:%s" % (tag, type(e).__name__), "opening a %d-byte %s file (%d frames of %d bytes + %d trailing bytes, meta claims %d samples) raised %s: %s"
+                     % (nbytes, dt, nf, frame, nbytes % frame, _claimed(mode, nf), type(e).__name__, e))], o="openfail")
+    try:
+        if sr.ns != nf or tuple(sr.shape) != (nf, nc):
+            v.append(("ns:%s" % tag, "ns=%r shape=%r but floor(%d/%d)=%d complete frames of %s are present" % (sr.ns, sr.shape, nbytes, frame, nf, dt)))
+        else:
+            s2v = np.array(synth.ref_s2v("NP2.1", "ap", k, 1))
+            ref = vals.reshape(nf, nc).astype(np.float32).astype(np.float64) * s2v[None, :]
+            got = sr[:, :]
+            from mc import refmodel
+            if not refmodel.calib_close(np.asarray(got), ref):
+                v.append(("read:%s" % tag, "full read of the %s file differs from its complete frames" % dt))
+    finally:
+        try:
+            sr.close()
+        except Exception:
+            pass
+    return Res(v, o=(dt, nbytes % frame != 0, rd), nt=True, tr=2)
+
+
 CHECK = {
     "property": "C11",
     "rule": "one case per (channel count, file length in bytes, metadata claim, sampling rate, reader class); "
@@ -179,5 +238,6 @@ CHECK = {
     "clauses": [
         Clause("truncation", "every file length x meta claim x fs x reader", cases=trunc_cases, check=trunc_check),
         Clause("cbin-mismatch", "compressed stream with another sample count than the metadata", cases=cbin_cases, check=cbin_check),
+        Clause("sample-formats", "float32 / int16 / int32 files: frame = channels x bytes per sample", cases=dtype_cases, check=dtype_check),
     ],
 }
